@@ -590,6 +590,29 @@ func ruleP07ErrMerge(p *Prog, r *Report) {
 		e := resultOf(c, 3)
 		key := fmt.Sprintf("mapParse#%d", nOuter)
 		r.check(e != nil && appended[strip(e)], rule, key, p.instrPos(c), "the errors of this mapParse call are appended to the merged list", "the errors of this mapParse call never reach the merged error list")
+		// the text left over after the last batch is parsed whatever it looks like (the serial
+		// parser has no notion of "nothing worth parsing" other than the empty text)
+		if !inLoopBlock(c.Block()) {
+			why := ""
+			common := map[ssa.Value]bool{} // conditions that hold for the whole merge alike
+			for _, c2 := range callsTo(parse, mapParse) {
+				if inLoopBlock(c2.Block()) {
+					for _, g := range guardsOf(c2.Block()) {
+						common[g.Cond] = true
+					}
+				}
+			}
+			for _, g := range guardsOf(c.Block()) {
+				if common[g.Cond] || isLoopGuard(g) || isLoopGuard(Guard{Cond: g.Cond, Pol: !g.Pol, If: g.If}) {
+					continue
+				}
+				if x, isEmpty, isG := emptyGuard(g); isG && !isEmpty && isStringType(x.Type()) && sameValue(x, c.Common().Args[len(c.Common().Args)-1]) {
+					continue
+				}
+				why = g.Cond.String()
+			}
+			r.check(why == "", rule, key+":unconditional", p.instrPos(c), "the final carried text is always parsed", "the text carried past the last batch is parsed only under a condition ("+why+"): when it does not hold, that text — which the serial parser would parse, and report if faulty — is neither parsed nor returned as a block")
+		}
 		// and its values / blocks reach the merged values / blocks
 	}
 	// worker: result.errs derives from its mapParse's errors; merged via flatten(result.errs)
@@ -789,16 +812,27 @@ func ruleP07Carry(p *Prog, r *Report) {
 	// merge: carry text accumulates head and tail of every result, in order
 	okHead, okTail := false, false
 	eachInstr(parse, func(in ssa.Instruction) {
-		b, ok := in.(*ssa.BinOp)
-		if !ok || b.Op != token.ADD {
+		// the piece appended: `carry += x`, or carry.WriteString(x) on a strings.Builder
+		var piece ssa.Value
+		switch x := in.(type) {
+		case *ssa.BinOp:
+			if x.Op == token.ADD {
+				piece = x.Y
+			}
+		case ssa.CallInstruction:
+			if g := staticCallee(x); g != nil && g.String() == "(*strings.Builder).WriteString" && len(x.Common().Args) == 2 {
+				piece = x.Common().Args[1]
+			}
+		}
+		if piece == nil {
 			return
 		}
-		if _, fld := fieldLoad(b.Y); fld == "headText" {
-			if only, _ := onlyLoopGuards(b.Block()); only {
+		if _, fld := fieldLoad(piece); fld == "headText" {
+			if only, _ := onlyLoopGuards(in.Block()); only {
 				okHead = true
 			}
 		}
-		if _, fld := fieldLoad(b.Y); fld == "tailText" {
+		if _, fld := fieldLoad(piece); fld == "tailText" {
 			okTail = true
 		}
 	})
